@@ -538,6 +538,14 @@ Definition hist_model (c : World.world * list op) : list value :=
                              {'op': 'reset', 'chain': 0, 'pick': 0}, {'op': 'reset', 'chain': 0, 'pick': 2}, {'op': 'flags', 'chain': 0},
                              {'op': 'value', 'chain': 0, 'pick': 2}, {'op': 'value', 'chain': 0, 'pick': 3},
                              {'op': 'reset', 'chain': 0, 'pick': 3}, {'op': 'value', 'chain': 0, 'pick': 3}]))
+        # a chain is inspected while results are missing, another chain of the same configuration computes them, then
+        # the first chain is asked: it loads
+        out.append(dict(classes=dia, files={}, base=base, context=None,
+                        ops=[{'op': 'build', 'base': base}, {'op': 'flags', 'chain': 0}, {'op': 'has_data', 'chain': 0, 'pick': 2},
+                             {'op': 'has_data', 'chain': 0, 'pick': 0}, {'op': 'build', 'base': base},
+                             {'op': 'value', 'chain': 1, 'pick': 2}, {'op': 'value', 'chain': 1, 'pick': 3},
+                             {'op': 'value', 'chain': 0, 'pick': 2}, {'op': 'value', 'chain': 0, 'pick': 3},
+                             {'op': 'flags', 'chain': 0}, {'op': 'value', 'chain': 0, 'pick': 0}]))
         # two mountings of one pipeline feed a task that is not symmetric in them; then the roles are swapped
         roles = [dict(K(0, 'Score', params=[P('x')]), name='score'),
                  dict(K(1, 'Compare', meta_inputs=[{'name': 'baseline::score'}, {'name': 'candidate::score'}]), name='compare')]
